@@ -19,7 +19,7 @@ Record parsed := mkP {
 Definition is_ows (c : ascii) : bool := Ascii.eqb c SP || Ascii.eqb c HT.
 Fixpoint ltrim_ows (x : bytes) : bytes :=
   match x with c :: t => if is_ows c then ltrim_ows t else x | [] => [] end.
-Definition trim_ows (x : bytes) : bytes := rev (ltrim_ows (rev (ltrim_ows x))).
+Definition trim_ows (x : bytes) : bytes := frev (ltrim_ows (frev (ltrim_ows x))).
 
 (* status-line = "HTTP/" DIGIT "." DIGIT SP 3DIGIT SP reason-phrase *)
 Definition parse_status_line (l : bytes) : option (bytes * N * bytes) :=
